@@ -51,6 +51,21 @@ pub fn free_port(ip: &str) -> u16 {
     l.local_addr().unwrap().port()
 }
 
+/// A port nobody else in this process will be handed: taken from a private range below the ephemeral range with a
+/// process-wide counter. (`free_port` asks the kernel, which may give the same number to two threads that both close
+/// their probe socket before their servers bind.)
+pub fn reserved_port(ip: &str) -> u16 {
+    static NEXT: std::sync::atomic::AtomicUsize = std::sync::atomic::AtomicUsize::new(0);
+    for _ in 0..1800 {
+        let k = NEXT.fetch_add(1, std::sync::atomic::Ordering::SeqCst);
+        let p = 30900 + (k % 1800) as u16;
+        if TcpListener::bind((ip, p)).is_ok() {
+            return p;
+        }
+    }
+    free_port(ip)
+}
+
 pub fn can_bind_80() -> bool {
     TcpListener::bind("127.0.0.77:80").is_ok()
 }
